@@ -36,7 +36,7 @@ impl FeatureIter {
             let (vis, name) = params.get_vis_name("iter");
 
             let span = params.span();
-            let struct_name = params.get_str_opt("struct");
+            let struct_name = params.get_str_opt("struct_name");
             let mode = match params
                 .get_str_opt("mode")
                 .unwrap_or_else(|| "auto".to_string())
